@@ -201,12 +201,32 @@ OPS = [
     ("f32", lambda x, y: x.astype(np.float32) * 2), ("int", lambda x, y: mg.tensor([1, 2, 3]) + 1),
     ("maxr", lambda x, y: mg.max(x, axis=1)), ("einsum", lambda x, y: mg.einsum("ij,ij->i", x, y)),
     ("sqrt_abs", lambda x, y: mg.sqrt(mg.abs(x) + 1)), ("expand", lambda x, y: mg.expand_dims(x, 0)),
+    # operands of different floating dtypes: the result takes NumPy's promoted dtype, tracked or not
+    ("mixed_add", lambda x, y: x.astype(np.float32) + y), ("mixed_mul_f16", lambda x, y: mg.multiply(x.astype(np.float16), y.astype(np.float32))),
+    ("batchnorm", lambda x, y: _bn(x, gamma=y[0], beta=y[1])),
+    ("batchnorm_f32_x", lambda x, y: _bn(x.astype(np.float32), gamma=y[0], beta=y[1])),
+    ("batchnorm_f16_x_f32_gamma", lambda x, y: _bn(x.astype(np.float16), gamma=y[0].astype(np.float32))),
+    ("batchnorm_f32_x_list_beta", lambda x, y: _bn(x.astype(np.float32), beta=[0.5] * x.shape[1])),
+    ("softmax_f32", lambda x, y: _sm(x.astype(np.float32))),
 ]
+
+
+def _bn(x, **kw):
+    from mygrad.nnet.layers import batchnorm
+
+    return batchnorm(x, eps=1e-3, **kw)
+
+
+def _sm(x):
+    from mygrad.nnet.activations import softmax
+
+    return softmax(x)
 INPLACE = [
     ("setitem", lambda x, y: x.__setitem__((slice(0, 1),), y[0:1])), ("iadd", lambda x, y: x.__iadd__(y)),
     ("imul_scalar", lambda x, y: x.__imul__(2.0)), ("out=", lambda x, y: mg.add(x, y, out=x)),
     ("setitem_mask", lambda x, y: x.__setitem__(x.data > 0, 7.0)),
     ("out_where", lambda x, y: mg.multiply(x, y, out=x, where=y.data > 0)),
+    ("shape=", lambda x, y: setattr(x, "shape", (x.size,))),
 ]
 
 
@@ -358,6 +378,8 @@ def untracked_case(args):
         npx[npx > 0] = 7.0
     elif iname == "out_where":
         np.multiply(npx, ya, out=npx, where=ya > 0)
+    elif iname == "shape=":
+        npx.shape = (npx.size,)
     (yv * 3.0).sum().backward()  # the operand, too, holds a gradient from a finished epoch
     arr_obj, ptr = t.data, t.data.ctypes.data
     held = [(nm_, x_, None if x_.grad is None else np.array(x_.grad), x_.base, len(x_._ops))
@@ -366,6 +388,9 @@ def untracked_case(args):
         iop(t, yv)
     for nm_, x_, g_, b_, n_ in held:
         g2 = x_.grad
+        if iname == "shape=" and g_ is not None and g2 is not None:
+            # (the gradient a tensor holds is re-shaped along with it)
+            g_, g2 = np.ravel(g_), np.ravel(g2)
         if (g_ is None) != (g2 is None) or (g_ is not None and not np.array_equal(g_, g2)):
             fails.append(f"untracked in-place {iname}: {nm_} lost or changed the gradient it held "
                          f"({None if g_ is None else g_.tolist()} -> {None if g2 is None else np.asarray(g2).tolist()})")
@@ -379,7 +404,7 @@ def untracked_case(args):
         fails.append(f"untracked in-place {iname}: wrong values")
     if t.creator is not None:
         fails.append(f"untracked in-place {iname}: target acquired a creator")
-    if not np.shares_memory(v.data, t.data) or not np.array_equal(v.data, npx):
+    if not np.shares_memory(v.data, t.data) or not np.array_equal(v.data.reshape(-1), npx.reshape(-1)):
         fails.append(f"untracked in-place {iname}: existing view does not see the write")
     del w
     reset_switches()
